@@ -45,7 +45,7 @@ fn ref_matches(subs: &BTreeMap<Vec<u8>, usize>, t: &[u8]) -> bool {
 
 fn model_layer(rep: &mut Report, args: &Args, rng: &mut Rng) {
   let probes = probes();
-  let n_hist = if args.thorough() { 3000 } else { 300 };
+  let n_hist = if args.extra.contains_key("miri") { 3 } else if args.thorough() { 3000 } else { 300 };
   for h in 0..n_hist {
     let trie = Trie::new();
     let mut subs: BTreeMap<Vec<u8>, usize> = BTreeMap::new();
